@@ -2,9 +2,6 @@
 
 
 def run(ctx, prop):
-    try:
-        from pyvc import driver
-    except ImportError:
-        ctx.notes["deductive"] = "pyvc not built yet"
-        return
+    from pyvc import driver
+
     driver.run_property(ctx, prop)
